@@ -73,6 +73,38 @@ fn describe_two(t: &Two) -> Value {
     })
 }
 
+
+/// surface-variant oracle on one enumerated document sequence: canonical bytes versus the alternative surface form
+/// (`<x></x>`, CDATA, comments, PIs, prolog, DOCTYPE, other attribute values), per document and all together, also through
+/// expand_empty_elements and a 1-byte chunked reader
+fn big_oracle(docs: &[&crate::model::Node], bytes: &[Vec<u8>]) -> Result<bool, String> {
+    let alt: Vec<Vec<u8>> = docs.iter().map(|d| crate::xmlser::canonical_variant(d).into_bytes()).collect();
+    let base = sut::parse_seq(bytes).map_err(|(i, e)| format!("document #{} rejected: {}", i + 1, e))?;
+    let expect = base.to_serde_struct(&crate::sut::Options::quick_xml_de());
+    let k = docs.len();
+    for mask in 1..(1usize << k.min(2)) + 1 {
+        // mask over the first two documents; the last round replaces every document
+        let all = mask == (1usize << k.min(2));
+        let seq: Vec<Vec<u8>> = (0..k).map(|i| if all || (i < 2 && mask >> i & 1 == 1) { alt[i].clone() } else { bytes[i].clone() }).collect();
+        for cfg in [
+            ReaderCfg::default_slice(),
+            ReaderCfg { kind: ReaderKind::Chunk(1), expand_empty: false, trim_text: false, check_end_names: true },
+            ReaderCfg { kind: ReaderKind::Slice, expand_empty: true, trim_text: false, check_end_names: true },
+        ] {
+            let r = sut::parse_seq_with(&seq, &cfg).map_err(|(i, e)| format!("variant document #{} rejected: {}", i + 1, e))?;
+            if r.to_serde_struct(&crate::sut::Options::quick_xml_de()) != expect {
+                return Err(format!("a surface variant of the same structures renders differently (variant mask {:b}, reader {:?})", mask, cfg));
+            }
+        }
+        // the plain bytes through expand_empty_elements as well
+        let r = sut::parse_seq_with(bytes, &ReaderCfg { kind: ReaderKind::Slice, expand_empty: true, trim_text: false, check_end_names: true }).map_err(|(i, e)| format!("document #{} rejected: {}", i + 1, e))?;
+        if r.to_serde_struct(&crate::sut::Options::quick_xml_de()) != expect {
+            return Err("reading the same bytes with expand_empty_elements renders differently".to_string());
+        }
+    }
+    Ok(true)
+}
+
 impl Property for C11 {
     fn id(&self) -> &'static str {
         "C11"
@@ -164,9 +196,41 @@ impl Property for C11 {
         if let Some((e, docs)) = fail {
             return Err((Failure::new(format!("small-scope exhaustive search: {}", e)).with_detail(json!({"documents": docs})), json!({"small_scope_documents": docs})));
         }
+        // families beyond the small scope, and the occurrence thresholds of C03 (an element seen ~1000 times and more)
+        {
+            let (n, fail) = super::smallscope::run_big_families(big_oracle);
+            st.evaluations += n;
+            st.nontrivial_enumerated += n;
+            st.add("big_families", n);
+            if let Some((label, e, docs)) = fail {
+                return Err((Failure::new(format!("family `{}`: {}", label, e)).with_detail(json!({"documents": docs})), json!({"big_family": label})));
+            }
+            for n in [1000usize, 1001, 1023, 1024, 1025, 4097] {
+                for docs in super::smallscope::threshold_family(n) {
+                    let refs: Vec<&crate::model::Node> = docs.iter().collect();
+                    let bytes: Vec<Vec<u8>> = docs.iter().map(|d| crate::xmlser::canonical(d).into_bytes()).collect();
+                    st.evaluations += 1;
+                    st.count("threshold_family.cases");
+                    if let Err(e) = big_oracle(&refs, &bytes) {
+                        return Err((Failure::new(format!("threshold family n={}: {}", n, e)), json!({"threshold_n": n})));
+                    }
+                }
+            }
+        }
         Ok(())
     }
     fn replay_custom(&self, payload: &Value) -> Result<(), Failure> {
+        if let Some(l) = payload["big_family"].as_str() {
+            return super::smallscope::replay_big_family(l, big_oracle).map_err(Failure::new);
+        }
+        if let Some(n) = payload["threshold_n"].as_u64() {
+            for docs in super::smallscope::threshold_family(n as usize) {
+                let refs: Vec<&crate::model::Node> = docs.iter().collect();
+                let bytes: Vec<Vec<u8>> = docs.iter().map(|d| crate::xmlser::canonical(d).into_bytes()).collect();
+                big_oracle(&refs, &bytes).map_err(|e| Failure::new(format!("threshold family n={}: {}", n, e)))?;
+            }
+            return Ok(());
+        }
         // the saved documents are in canonical form; rebuild the DOM with the mini parser of C03's replay by delegating the structural part
         let docs: Vec<Vec<u8>> = payload["small_scope_documents"].as_array().map(|a| a.iter().map(|d| d.as_str().unwrap_or("").as_bytes().to_vec()).collect()).unwrap_or_default();
         let base = sut::parse_seq(&docs).map_err(|(i, e)| Failure::new(format!("document #{} rejected: {}", i + 1, e)))?;
